@@ -373,6 +373,49 @@ func genJsonxOwn(repo string) (string, error) {
 	for _, x := range ints {
 		its = append(its, fmt.Sprintf("%d%%N", x))
 	}
+	// state the file readers look at besides the file: package-level variables
+	// they mention and file-status calls (a cache keyed by name, size, time)
+	rstate := []string{}
+	if p, err := loadPkg(filepath.Join(repo, "jsonx")); err == nil {
+		vars := map[string]bool{}
+		for _, fn := range p.sortedFiles() {
+			for _, d := range p.files[fn].Decls {
+				if gd, ok := d.(*ast.GenDecl); ok && gd.Tok == token.VAR {
+					for _, sp := range gd.Specs {
+						for _, id := range sp.(*ast.ValueSpec).Names {
+							vars[id.Name] = true
+						}
+					}
+				}
+			}
+		}
+		for _, name := range []string{"ReadFile", "ReadFileMaybeJSON", "ReadSeriesFile", "unmarshalFile", "NewFileDecoder", "NewDecoder"} {
+			fd := p.funcDecl("", name)
+			if fd == nil || fd.Body == nil {
+				rstate = append(rstate, fmt.Sprintf("(%s, %s)", coqStr("jsonx."+name), coqStr("<missing>")))
+				continue
+			}
+			ast.Inspect(fd.Body, func(nd ast.Node) bool {
+				switch x := nd.(type) {
+				case *ast.Ident:
+					if vars[x.Name] && x.Obj == nil || (x.Obj != nil && x.Obj.Kind == ast.Var && vars[x.Name] && x.Obj.Decl != nil && isTopLevel(p, x.Obj.Decl)) {
+						rstate = append(rstate, fmt.Sprintf("(%s, %s)", coqStr("jsonx."+name), coqStr("var "+x.Name)))
+					}
+				case *ast.CallExpr:
+					switch f := p.src(x.Fun); f {
+					case "os.Stat", "os.Lstat":
+						rstate = append(rstate, fmt.Sprintf("(%s, %s)", coqStr("jsonx."+name), coqStr(f)))
+					default:
+						if strings.HasSuffix(f, ".Stat") || strings.HasSuffix(f, ".ModTime") {
+							rstate = append(rstate, fmt.Sprintf("(%s, %s)", coqStr("jsonx."+name), coqStr(f)))
+						}
+					}
+				}
+				return true
+			})
+		}
+	}
+	fmt.Fprintf(&b, "Definition gen_reader_state : list (string * string) :=\n  %s.\n\n", coqList(rstate))
 	fmt.Fprintf(&b, "Definition gen_int_literals : list N := [%s].\n\n", strings.Join(its, "; "))
 	fmt.Fprintf(&b, "Definition gen_writefile_opens : list (string * wopen) :=\n  %s.\n\n", coqList(opens))
 	fmt.Fprintf(&b, "Definition gen_result_origins : list (string * list rorigin) :=\n  %s.\n\n", coqList(origins))
@@ -398,4 +441,24 @@ func openFlags(p *pkg, e ast.Expr) ([]string, bool) {
 		}
 	}
 	return nil, false
+}
+
+// isTopLevel: the declaration is a package-level var spec.
+func isTopLevel(p *pkg, decl interface{}) bool {
+	vs, ok := decl.(*ast.ValueSpec)
+	if !ok {
+		return false
+	}
+	for _, fn := range p.sortedFiles() {
+		for _, d := range p.files[fn].Decls {
+			if gd, ok := d.(*ast.GenDecl); ok && gd.Tok == token.VAR {
+				for _, sp := range gd.Specs {
+					if sp == vs {
+						return true
+					}
+				}
+			}
+		}
+	}
+	return false
 }
